@@ -102,6 +102,26 @@ theorem cStmt_print_inv {ce : CE} {cs cs' : CS} {d : Nat} {ln : Bool} {e : Expr}
     cases h
     exact ⟨c, he, rfl⟩
 
+theorem cStmt_assert_inv {ce : CE} {cs cs' : CS} {d : Nat} {e : Expr} {code : List PI}
+    (h : cStmt ce cs d (.assertS e) = .ok (cs', code)) :
+    ∃ c, cExpr ce cs e = .ok (cs', c) ∧ code = c ++ [ins .ASSERT] := by
+  rw [cStmt] at h
+  split at h
+  · cases h
+  · rename_i cs1 c he
+    cases h
+    exact ⟨c, he, rfl⟩
+
+theorem cStmt_expr_inv {ce : CE} {cs cs' : CS} {d : Nat} {e : Expr} {code : List PI}
+    (h : cStmt ce cs d (.exprS e) = .ok (cs', code)) :
+    ∃ c, cExpr ce cs e = .ok (cs', c) ∧ code = c ++ [ins .POP] := by
+  rw [cStmt] at h
+  split at h
+  · cases h
+  · rename_i cs1 c he
+    cases h
+    exact ⟨c, he, rfl⟩
+
 theorem cStmt_let_inv {ce : CE} {cs cs' : CS} {d : Nat} {x : String} {mu : Bool} {ty : Ty} {e : Expr} {code : List PI}
     (h : cStmt ce cs d (.letS x mu ty e) = .ok (cs', code)) :
     ∃ cs1 c k, cExpr ce cs e = .ok (cs1, c) ∧ cs1.localAdd x (some ty) = .ok (cs', k) ∧ code = c ++ [loadIdx .STORE_LOCAL k] := by
@@ -203,10 +223,13 @@ theorem scopeEnd_self (cs : CS) : cs.scopeEnd cs.locals.length = cs := by
   simp_all
 
 /-- statements without declarations, `break`, `continue`, `return`, `for`: assignment to a variable,
-    printing, conditionals, `while` loops, nested blocks - over expressions of the pure fragment -/
+    printing, `assert`, expression statements, conditionals, `while` loops, nested blocks - over expressions
+    of the pure fragment -/
 inductive StmtF : Stmt → Prop
   | set (x : String) (e : Expr) : PureE e → StmtF (.setS x e)
   | print (ln : Bool) (e : Expr) : PureE e → StmtF (.printS ln e)
+  | assert (e : Expr) : PureE e → StmtF (.assertS e)
+  | expr (e : Expr) : PureE e → StmtF (.exprS e)
   | if1 (c : Expr) (t : List Stmt) (b : Bool) : PureE c → (∀ s ∈ t, StmtF s) → StmtF (.ifS c t none b)
   | if2 (c : Expr) (t eb : List Stmt) (b : Bool) : PureE c → (∀ s ∈ t, StmtF s) → (∀ s ∈ eb, StmtF s) → StmtF (.ifS c t (some eb) b)
   | while (c : Expr) (b : List Stmt) : PureE c → (∀ s ∈ b, StmtF s) → StmtF (.whileS c b)
@@ -356,6 +379,14 @@ theorem stmtF_compF (ce : CE) (st : Stmt) (hf : StmtF st) : CompF ce st := by
   | print ln e he =>
     intro cs cs' d code h
     obtain ⟨c, hc, rfl⟩ := cStmt_print_inv h
+    exact ⟨cExpr_pure_cs ce e he cs _ c hc, by rw [noPH_append, cExpr_pure_noPH ce e he cs _ c hc]; rfl⟩
+  | assert e he =>
+    intro cs cs' d code h
+    obtain ⟨c, hc, rfl⟩ := cStmt_assert_inv h
+    exact ⟨cExpr_pure_cs ce e he cs _ c hc, by rw [noPH_append, cExpr_pure_noPH ce e he cs _ c hc]; rfl⟩
+  | expr e he =>
+    intro cs cs' d code h
+    obtain ⟨c, hc, rfl⟩ := cStmt_expr_inv h
     exact ⟨cExpr_pure_cs ce e he cs _ c hc, by rw [noPH_append, cExpr_pure_noPH ce e he cs _ c hc]; rfl⟩
   | if1 c t b hc _ iht =>
     intro cs cs' d code h
@@ -727,6 +758,72 @@ theorem sim_print (m : Module) (ce : CE) (p : Program) (L : Nat) (ln : Bool) (e 
       · rfl
       · exact ⟨⟨hinv.env.locals, hinv.env.globals⟩, hinv.len, hinv.inert, by simp [hinv.out, List.append_assoc], hinv.closed, hinv.noglob⟩
 
+theorem ed_assert_true (m : Module) (fr : Frame) (c : Core) (is : Nat) (st : List Val) (hs : c.stack = st ++ [.bool true]) :
+    execData' m fr c is .ASSERT [] = ({ c with stack := st }, .running) := by
+  simp only [execData', pop_append c st _ hs, truthy, if_true]
+  rw [core_release_scalar _ _ rfl]
+  rfl
+
+theorem ed_pop (m : Module) (fr : Frame) (c : Core) (is : Nat) (st : List Val) (v : Val) (hv : Val.inert v) (hs : c.stack = st ++ [v]) :
+    execData' m fr c is .POP [] = ({ c with stack := st }, .running) := by
+  simp only [execData', pop_append c st _ hs]
+  rw [core_release_inert _ _ hv]
+  rfl
+
+theorem sim_assert (m : Module) (ce : CE) (p : Program) (L : Nat) (e : Expr) (he : PureE e) :
+    SimS m ce p L (.assertS e) := by
+  intro cs cs' code d fuel loc loc' g g' fl s fr frs bs hc hs hfr henc hat hinv
+  cases fuel with
+  | zero => simp [Sem.execStmt] at hs
+  | succ f =>
+    simp only [Sem.execStmt] at hs
+    cases hev : Sem.evalExpr Sem.vmCfg p f loc g e with
+    | error er => simp [hev] at hs
+    | ok r =>
+      obtain ⟨w, g1⟩ := r
+      simp only [hev] at hs
+      obtain ⟨c, hce, rfl⟩ := cStmt_assert_inv hc
+      obtain ⟨bc, bp, hbc, hbp, rfl⟩ := encodeAll_append _ _ _ henc
+      obtain ⟨_, rfl, v, n, hv, hrun⟩ := cExpr_sim m ce p e he cs cs' c f loc g g1 w s fr frs bc hce hev hfr hbc hat.left hinv.env
+      cases w with
+      | bool b =>
+        cases b with
+        | false => simp at hs
+        | true =>
+          simp only [Except.ok.injEq, Prod.mk.injEq] at hs
+          obtain ⟨rfl, rfl, rfl⟩ := hs
+          have := hv.of_bool; subst this
+          refine ⟨rfl, rfl, n + 1, advS s (s.ip + bc.length + bp.length) s.stack, ?_, ?_, rfl, rfl, ?_⟩
+          · rw [runN_add m n 1 s _ hrun]
+            exact exec1_adv (s.ip + bc.length) _ _ hfr hat.right hbp (wf0 _ (by decide)) rfl
+              (fun c0 hcst => ed_assert_true m fr c0 _ s.stack hcst)
+          · simp [List.length_append, Nat.add_assoc]
+          · exact ⟨hinv.env, hinv.len, hinv.inert, hinv.out, hinv.closed, hinv.noglob⟩
+      | _ => simp at hs
+
+theorem sim_exprS (m : Module) (ce : CE) (p : Program) (L : Nat) (e : Expr) (he : PureE e) :
+    SimS m ce p L (.exprS e) := by
+  intro cs cs' code d fuel loc loc' g g' fl s fr frs bs hc hs hfr henc hat hinv
+  cases fuel with
+  | zero => simp [Sem.execStmt] at hs
+  | succ f =>
+    simp only [Sem.execStmt] at hs
+    cases hev : Sem.evalExpr Sem.vmCfg p f loc g e with
+    | error er => simp [hev] at hs
+    | ok r =>
+      obtain ⟨w, g1⟩ := r
+      simp only [hev, Except.ok.injEq, Prod.mk.injEq] at hs
+      obtain ⟨rfl, rfl, rfl⟩ := hs
+      obtain ⟨c, hce, rfl⟩ := cStmt_expr_inv hc
+      obtain ⟨bc, bp, hbc, hbp, rfl⟩ := encodeAll_append _ _ _ henc
+      obtain ⟨_, rfl, v, n, hv, hrun⟩ := cExpr_sim m ce p e he cs cs' c f loc g g1 w s fr frs bc hce hev hfr hbc hat.left hinv.env
+      refine ⟨rfl, rfl, n + 1, advS s (s.ip + bc.length + bp.length) s.stack, ?_, ?_, rfl, rfl, ?_⟩
+      · rw [runN_add m n 1 s _ hrun]
+        exact exec1_adv (s.ip + bc.length) _ _ hfr hat.right hbp (wf0 _ (by decide)) rfl
+          (fun c0 hcst => ed_pop m fr c0 _ s.stack v hv.inert hcst)
+      · simp [List.length_append, Nat.add_assoc]
+      · exact ⟨hinv.env, hinv.len, hinv.inert, hinv.out, hinv.closed, hinv.noglob⟩
+
 /-- the same statement for a statement list (`cStmts` / `execStmts`) -/
 def SimL (m : Module) (ce : CE) (p : Program) (L : Nat) (ss : List Stmt) : Prop :=
   ∀ (cs cs' : CS) (code : List PI) (d fuel : Nat) (loc loc' : Sem.Locals) (g g' : Sem.GState) (fl : Sem.Flow)
@@ -1089,6 +1186,8 @@ theorem stmtF_sim (m : Module) (ce : CE) (p : Program) (L : Nat) (st : Stmt) (hf
   induction hf with
   | set x e he => exact sim_set m ce p L x e he
   | print ln e he => exact sim_print m ce p L ln e he
+  | assert e he => exact sim_assert m ce p L e he
+  | expr e he => exact sim_exprS m ce p L e he
   | if1 c t b hc ht iht =>
     exact sim_if1 m ce p L c t b hc (sim_block m ce p L t iht (fun st hst => stmtF_compF ce st (ht st hst)))
       (fun st hst => stmtF_compF ce st (ht st hst))
